@@ -73,8 +73,31 @@ class FuncInfo:
             nm = e.id if isinstance(e, ast.Name) else (e.attr if isinstance(e, ast.Attribute) else "?")
             if nm in ("staticmethod", "classmethod", "property", "cached_property", "register", "abstractmethod", "wraps", "overload", "final", "override"):
                 continue
+            if nm in ("lru_cache", "cache") and self._pure_scalar_function():
+                continue            # memoisation of a pure function of hashable arguments with an immutable result: transparent
             out.append(nm)
         return out
+
+    def _pure_scalar_function(self):
+        """a module-level function or static method whose body is `return <arithmetic of its parameters and literals>` (tuples
+        allowed), possibly after a docstring: no state is read, and the value -- numbers / tuples of numbers, since the arguments
+        of a memoised call are hashable -- cannot be changed by the caller who receives the cached object"""
+        if self.cls is not None and not self.is_static:
+            return False
+        body = [st for st in self.node.body if not (isinstance(st, ast.Expr) and isinstance(st.value, ast.Constant))]
+        if len(body) != 1 or not isinstance(body[0], ast.Return) or body[0].value is None:
+            return False
+        params = set(self.params)
+        for n in ast.walk(body[0].value):
+            if isinstance(n, ast.Name):
+                if n.id not in params and n.id not in ("int", "float", "abs", "min", "max", "round", "len", "tuple", "bool"):
+                    return False
+            elif isinstance(n, ast.Call):
+                if not (isinstance(n.func, ast.Name) and n.func.id in ("int", "float", "abs", "min", "max", "round", "len", "tuple", "bool")):
+                    return False
+            elif not isinstance(n, (ast.BinOp, ast.UnaryOp, ast.Tuple, ast.Constant, ast.Compare, ast.IfExp, ast.BoolOp, ast.operator, ast.unaryop, ast.cmpop, ast.boolop, ast.expr_context)):
+                return False
+        return True
 
     @property
     def is_property(self):
